@@ -28,7 +28,8 @@ def run(ctx: Ctx) -> None:
                 "leaf messages: present iff unfulfilled (the property's premise) plus a stream with arbitrary messages; strings through the real parser; "
                 "distinct = (tree, assignment, message mode)")
     ctx.coverage["generated_changed"] = extract.regenerate([])
-    ok = ctx.lean_build(MODULES + ["driver"])
+    ok = ctx.lean_build(MODULES)
+    drv = ctx.lean_build_driver()
     if ok:
         ctx.lean_audit(MODULES)
         if not ctx.quick:
@@ -95,7 +96,7 @@ def run(ctx: Ctx) -> None:
     ctx.coverage["string_level_cases"] = n_str
     for c in cases[:: max(1, len(cases) // 5)][:5]:
         ctx.sample({"tree": T.to_json(c["e"]), "fc": c["fc"], "impl": c["impl"]})
-    if ok:
+    if drv:
         outs = ctx.driver({"op": "evalFc", "tree": T.to_json(c["e"]), "fc": {k: list(v) for k, v in c["fc"].items()}} for c in cases)
         n_diff = 0
         for c, o in zip(cases, outs):
